@@ -129,6 +129,20 @@ def generate(ctx):
     for i in range(ctx.n(400, 6000)):
         yield {"kind": "session", "valid": True,
                "ops": G.gen_mixed_session(rng, max_rec=60 if i % 10 else 200, first_string=(None if i % 3 else False))}
+    # ---- the records reach the file through writelines() in batches (one per molecule, say): batch sizes 1, 0,
+    # 2…; the file must be what record-by-record writing gives
+    for i in range(ctx.n(250, 4000)):
+        ops = G.gen_valid_session(rng, nrec=rng.randint(1, 30))
+        nrec = sum(1 for o in ops if o[0] == "w")
+        chunks = []
+        left = nrec
+        while left > 0:
+            c = rng.choice([1, 1, 0, 2, 3, rng.randint(1, 8)])
+            chunks.append(min(c, left))
+            left -= min(c, left)
+        if rng.random() < 0.5:
+            chunks.insert(rng.randrange(1, len(chunks) + 1), 0)
+        yield {"kind": "session", "valid": True, "ops": ops, "chunks": chunks}
     # ---- closed without a record, wrong-length tuples, wrong-shape boxes: every small shape once
     for pre in ([], [["c", "empty"]], [["n", 0]], [["n", 2]], [["f", 9, 4], ["b3", [1.0, 2.0, 3.0]]]):
         yield {"kind": "session", "valid": False, "ops": pre + [["x"]]}
@@ -364,7 +378,11 @@ def _eval_session(ctx, case):
     ctx.count("size-le6" if len(recs) <= 6 else "size-le40" if len(recs) <= 40 else "size-le300")
     path = os.path.join(ctx.scratch, f"c13-{ctx.evaluations % 3}.gro")   # path strings reused on purpose
     common.decoy(path, "gro")
-    errs, data, _ = G.run_session(path, ops)
+    if case.get("chunks") is not None:
+        ctx.count("records-through-writelines-batches")
+        errs, data, _ = G.run_session_chunked(path, ops, case["chunks"])
+    else:
+        errs, data, _ = G.run_session(path, ops)
     back = G.read_back(path)
     os.unlink(path)
     _count_api(ctx, ops, errs)
